@@ -109,15 +109,15 @@ func randomOp(g *val.Gen, p []RStep, m protoreflect.Message) ROp {
 		msgVal := fd.MapValue().Message() != nil
 		choices := []string{"MLen", "MHas", "MGet", "MClear", "MRange", "MIsValid", "MNewValue", "Has", "Get", "Clear", "Mutable", "Getter"}
 		if msgVal {
-			choices = append(choices, "MMutable", "MMutable", "MSetNew", "MRetained")
+			choices = append(choices, "MMutable", "MMutable", "MSetNew", "MRetained", "ViewClear", "SetInvalid")
 		} else {
-			choices = append(choices, "MSet", "MSet", "MSet", "MRetained")
+			choices = append(choices, "MSet", "MSet", "MSet", "MRetained", "ViewClear", "SetInvalid")
 		}
 		op.Op = choices[g.R.Intn(len(choices))]
 		if op.Op == "MSet" || (op.Op == "MRetained" && !msgVal) {
 			op.X = scalar(fd.MapValue())
 		}
-		if op.Op == "MRetained" {
+		if op.Op == "MRetained" || op.Op == "ViewClear" || op.Op == "SetInvalid" {
 			op.Via = "mutable"
 		}
 		if op.Op == "MClear" && op.Via == "get" {
@@ -127,9 +127,9 @@ func randomOp(g *val.Gen, p []RStep, m protoreflect.Message) ROp {
 		n := m.Get(fd).List().Len()
 		choices := []string{"LLen", "LGet", "LTruncate", "LIsValid", "LNewElement", "Has", "Get", "Clear", "Mutable", "Getter", "SetNew"}
 		if fd.Message() != nil {
-			choices = append(choices, "LAppendMutable", "LAppendMutable", "LAppendNew", "LRetained")
+			choices = append(choices, "LAppendMutable", "LAppendMutable", "LAppendNew", "LRetained", "ViewClear", "SetInvalid", "LElemKept")
 		} else {
-			choices = append(choices, "LAppend", "LAppend", "LAppend", "LSet", "LRetained")
+			choices = append(choices, "LAppend", "LAppend", "LAppend", "LSet", "LRetained", "ViewClear", "SetInvalid")
 		}
 		op.Op = choices[g.R.Intn(len(choices))]
 		switch op.Op {
@@ -150,16 +150,21 @@ func randomOp(g *val.Gen, p []RStep, m protoreflect.Message) ROp {
 			if fd.Message() == nil {
 				op.X = scalar(fd)
 			}
+		case "ViewClear", "SetInvalid":
+			op.Via = "mutable"
+		case "LElemKept":
+			op.Via = "mutable"
+			op.U = []int{0xf8, 0xff, 0x7f, 0x2a}
 		}
 	case fd.Message() != nil:
-		op.Op = []string{"Has", "Get", "Mutable", "Mutable", "SetNew", "Clear", "NewField", "Getter"}[g.R.Intn(8)]
+		op.Op = []string{"Has", "Get", "Mutable", "Mutable", "SetNew", "Clear", "NewField", "Getter", "SetInvalid"}[g.R.Intn(9)]
 	default:
 		op.Op = []string{"Has", "Get", "Set", "Set", "Set", "Clear", "NewField", "Getter", "Mutable"}[g.R.Intn(9)]
 		if op.Op == "Set" {
 			op.X = scalar(fd)
 		}
 	}
-	if op.Op == "Getter" || op.Op == "Has" || op.Op == "Get" || op.Op == "Clear" || op.Op == "NewField" || op.Op == "SetNew" || op.Op == "Mutable" || op.Op == "Set" {
+	if op.Op == "Getter" || op.Op == "Has" || op.Op == "Get" || op.Op == "Clear" || op.Op == "NewField" || op.Op == "SetNew" || op.Op == "Mutable" || op.Op == "Set" || op.Op == "SetInvalid" {
 		op.Via = "mutable"
 	}
 	return op
